@@ -689,6 +689,12 @@ pub fn apply_fault(t: &mut SupplyTrace, plan: &Plan, f: F, r: &mut Rng, prefer_s
             }
             t.caller.push((other, m));
             t.caller_json_alias.push(t.caller.len() - 1);
+            // and the owner's signature once more, under the alias id
+            if let Some(sp) = t.root.doc.signers.iter().position(|s| *s == m) {
+                if r.chance(3, 4) {
+                    t.root.doc.ops.push(DocOp::SigDupAs { at: sp, to: other });
+                }
+            }
         }
         F::Misattributed => {
             // a link filed under A's prefix that carries a worthless entry labelled A and a valid
@@ -741,6 +747,17 @@ pub fn apply_fault(t: &mut SupplyTrace, plan: &Plan, f: F, r: &mut Rng, prefer_s
                 .filter(|(p, _)| p.contains("threshold") || p.contains("pubkeys") || p.contains("expected_") || p.contains("expires") || p.contains("/name"))
                 .collect();
             let (ptr, old) = if !hot.is_empty() && r.chance(2, 3) { (*r.pick(&hot)).clone() } else { r.pick(&ls).clone() };
+            // a MATCH rule: splice an empty source / destination prefix in (parses to another rule)
+            let match_rules: Vec<String> = ls.iter().filter(|(p, v)| p.ends_with("/0") && v.as_str() == Some("MATCH")).map(|(p, _)| p[..p.len() - 2].to_string()).collect();
+            if !match_rules.is_empty() && r.chance(1, 6) {
+                let arr = r.pick(&match_rules).clone();
+                let rel = arr.strip_prefix("/signed").unwrap_or(&arr).to_string();
+                let n = v.pointer(&rel).and_then(|a| a.as_array()).map(|a| a.len()).unwrap_or(0);
+                let idx = if n == 6 && r.chance(1, 2) { 4 } else { 2 };
+                t.root.doc.ops.push(DocOp::Insert { ptr: arr, index: idx, values: vec![json!("IN"), json!(if r.chance(1, 2) { "" } else { "." })] });
+                t.labels.push(fname(f).to_string());
+                return true;
+            }
             match r.below(8) {
                 0 => t.root.doc.ops.push(DocOp::Remove { ptr }),
                 1 => {
